@@ -246,7 +246,43 @@ func c07r2(c *core.Ctx) {
 		}
 		return good && n > 0
 	})
-	notDrained := core.AnyFact(lenZeroFact(isRem), helperNotDrained)
+	// the drained test written out:  if l, ok := rem.(interface{ Len() int }); ok && l.Len() == 0 { clear } : the !ok edge keeps the
+	// buffer on the strength of "every reader Decrypt returns has Len()" — the same obligation the helper form relies on (checked below)
+	assertFails := func(cond ssa.Value) (bool, bool) {
+		e, ok := cond.(*ssa.Extract)
+		if !ok || e.Index != 1 {
+			return false, false
+		}
+		ta, ok := e.Tuple.(*ssa.TypeAssert)
+		if !ok || !ta.CommaOk || !isRem(ta.X) {
+			return false, false
+		}
+		it, ok := ta.AssertedType.Underlying().(*types.Interface)
+		if !ok {
+			return false, false
+		}
+		for k := 0; k < it.NumMethods(); k++ {
+			if it.Method(k).Name() == "Len" {
+				usesAssert, lenBased = true, true
+				return false, true
+			}
+		}
+		return false, false
+	}
+	inlineLen := lenZeroFact(func(v ssa.Value) bool {
+		// l.Len() where l is the asserted remainder
+		if isRem(v) {
+			return true
+		}
+		if e, ok := v.(*ssa.Extract); ok && e.Index == 0 {
+			if ta, ok := e.Tuple.(*ssa.TypeAssert); ok && isRem(ta.X) {
+				usesAssert, lenBased = true, true
+				return true
+			}
+		}
+		return false
+	})
+	notDrained := core.AnyFact(lenZeroFact(isRem), inlineLen, assertFails, helperNotDrained)
 	// enumerate paths from entry; consider the part after the Read
 	retain, eofReturned, total := 0, 0, 0
 	var retainPath core.Path
